@@ -37,7 +37,7 @@ RULE = ('one evaluation = one explored path of solve_cnf (a set of polarity assi
         'distinct = distinct (shape, verdict, decision-trace) triples; non-trivial = the CNF has at least one clause')
 EXPLANATION = ('solve_cnf is executed on proxies: each literal polarity is a z3 Bool; path conditions and the final '
                'assertion are discharged by z3 for every polarity assignment on the path; exhaustive over the stated shapes')
-BUDGET_S = {'quick': 240, 'thorough': 1500}
+BUDGET_S = {'quick': 240, 'thorough': 900}
 NAMES = ['a', 'b', 'c', 'd']
 
 
